@@ -10,7 +10,7 @@
    heights started (successfully) or learned decided since the process started, beginning with the
    height the process loaded from the store. *)
 From Coq Require Import List NArith Bool.
-From SSV Require Import Ctrl.Model Ctrl.Proofs Ctrl.Proofs2 Ctrl.OldF5.
+From SSV Require Import Ctrl.Model Ctrl.Proofs Ctrl.Proofs2 Ctrl.Proofs3 Ctrl.OldF5.
 Import ListNotations.
 Local Open Scope N_scope.
 
@@ -60,6 +60,36 @@ Theorem C15_stored_height_not_restarted : forall f ops s slot s' rec,
   highest (store s) = Some rec -> st_height rec < slot.
 Proof. exact stored_not_restarted_strict. Qed.
 Print Assumptions C15_stored_height_not_restarted.
+
+(* (b), what makes the highest decided instance survive a restart.  Over ALL histories: whenever the
+   controller holds a decided instance of its own height (other than 0), the stored highest instance
+   is of exactly that height ... *)
+Theorem C15_decided_current_is_stored : forall f ops s i,
+  run (init f) ops = s ->
+  find_inst (insts (ct s)) (height (ct s)) = Some i -> i_decided i = true -> height (ct s) <> 0 ->
+  exists rec, highest (store s) = Some rec /\ st_height rec = height (ct s).
+Proof. exact decided_current_is_stored. Qed.
+Print Assumptions C15_decided_current_is_stored.
+
+(* ... so every valid decided message for a height that is not below the controller height leaves
+   that height in the highest record, with the two exceptions the code makes: height 0, and a full
+   node that holds no instance of that height but finds a historical record of it (InstanceForHeight
+   then returns a throw-away instance and UponDecided saves nothing) ... *)
+Theorem C15_decided_is_persisted : forall f ops s h m l s' r,
+  run (init f) ops = s -> step s (ODecided h m true l) = (s', r) ->
+  height (ct s) <= h -> h <> 0 ->
+  (full f = false \/ find_inst (insts (ct s)) h <> None \/ lookup (history (store s)) h = None) ->
+  exists rec, highest (store s') = Some rec /\ st_height rec = h.
+Proof. exact decided_is_persisted. Qed.
+Print Assumptions C15_decided_is_persisted.
+
+(* ... and so does every local decision of an instance that is not below the controller height. *)
+Theorem C15_local_decision_is_persisted : forall f ops s h sg s',
+  run (init f) ops = s -> step s (OLocal h sg) = (s', LDone true) ->
+  height (ct s) <= h -> h <> 0 ->
+  exists rec, highest (store s') = Some rec /\ st_height rec = h.
+Proof. exact local_is_persisted. Qed.
+Print Assumptions C15_local_decision_is_persisted.
 
 (* (c) Store monotonicity, for the tree that carries work/fix-C15.diff: over all histories, every
    operation leaves the stored highest instance in place or replaces it by one of a higher height
@@ -135,3 +165,20 @@ Example C15_store_monotone_nontrivial :
   view s = (10, [(10, true)], Some (10, 2, [1; 2; 3])) /\
   view s' = (10, [(10, true)], Some (10, 1, [1; 2; 3; 4])).
 Proof. vm_compute. split; reflexivity. Qed.
+
+(* Both exceptions of the persistence theorems are real.  Full node: height 9 is learned decided below
+   the started height 10 (historical record only), learned again after a restart - nothing is stored, and
+   after the next restart slot 9 starts; the light node stores it and keeps refusing.  Height 0: a
+   refused second start of slot 0 clears the runner's running instance, the local decision of height 0
+   is not stored, and after a restart slot 0 starts again. *)
+Definition ex9 : list op :=
+  [ OStart 10; ODecided 9 (c 1 [1; 2; 3]) true true; ORestart; ODecided 9 (c 1 [1; 2; 3]) true true; ORestart ].
+
+Example C15_persistence_exceptions_are_real :
+  view (run (init fx_full) ex9) = (0, [], None) /\
+  snd (step (run (init fx_full) ex9) (OStart 9)) = SOk /\
+  view (run (init fx_light) ex9) = (9, [(9, true)], Some (9, 1, [1; 2; 3])) /\
+  snd (step (run (init fx_light) ex9) (OStart 9)) = SPassed /\
+  results (init fx_light) [OStart 0; OStart 0; OLocal 0 [1; 2; 3]; ORestart; OStart 0]
+    = [SOk; SExists; LDone true; RDone; SOk].
+Proof. vm_compute. repeat split; reflexivity. Qed.
